@@ -5,7 +5,7 @@
 (* (C09) and the accessor table (C05): which tag, with which data type,    *)
 (* every metadata accessor reads, and what it must return.                 *)
 (***************************************************************************)
-EXTENDS HeaderFormat
+EXTENDS HeaderFormat, RpmNames
 
 LeadSize == 96
 SigAt    == 96
@@ -138,4 +138,19 @@ ScriptExpected(b, h, t) ==
     LET s == GetStr(b, h, t[1]) IN
     IF IsErr(s) THEN s
     ELSE Ok([script |-> s.ok, flags |-> Opt(GetU32(b, h, t[2])), prog |-> Opt(GetStrArr(b, h, t[3]))])
+
+---------------------------------------------------------------------------
+(* C09: the rpmlib() features a package uses must be declared among its requires *)
+ReqNames(b, h) == LET r == GetStrArr(b, h, 1049) IN IF IsErr(r) THEN <<>> ELSE r.ok
+HasReq(b, h, n) == \E i \in 1..Len(ReqNames(b, h)) : ReqNames(b, h)[i] = n
+Compressor(b, h) == LET c == GetStr(b, h, 1125) IN IF IsErr(c) THEN S_NoneC ELSE c.ok
+UsesCaps(b, h) == LET c == GetStrArr(b, h, 5010) IN ~IsErr(c) /\ \E i \in 1..Len(c.ok) : c.ok[i] # <<>>
+RpmlibOk(b, h) ==
+    /\ (Find(b, h, 1117) # 0 => HasReq(b, h, S_CompressedFileNames) /\ HasReq(b, h, S_PayloadFilesHavePrefix))
+    /\ (Find(b, h, 5011) # 0 => HasReq(b, h, S_FileDigests))
+    /\ (Compressor(b, h) = S_Zstd  => HasReq(b, h, S_PayloadIsZstd))
+    /\ (Compressor(b, h) = S_Xz    => HasReq(b, h, S_PayloadIsXz))
+    /\ (Compressor(b, h) = S_Bzip2 => HasReq(b, h, S_PayloadIsBzip2))
+    /\ (UsesCaps(b, h) => HasReq(b, h, S_FileCaps))
+    /\ (Find(b, h, 5008) # 0 => HasReq(b, h, S_LargeFiles))
 =============================================================================
